@@ -26,8 +26,14 @@ void harness(void) {
   ASSERT(w_fi_total(a) == total, "total weight is the exact sum of all update weights");
   uint64_t me = w_fi_max_error(a);
   OBSERVE(me); OBSERVE(w_fi_active(a));
+#ifdef SYMQUERY   /* concrete stream (constant-folded by symex), SYMBOLIC query item: the bracket must hold for every item 1..NI+1 */
+  uint64_t qit = ND_RANGE(1, NI + 1);
+  for (uint64_t it = qit; it <= qit; it++) {
+#else
   for (uint64_t it = 1; it <= NI + 1; it++) {     /* NI+1: an item never offered */
-    uint64_t lb = w_fi_lower(a, it), ub = w_fi_upper(a, it), est = w_fi_estimate(a, it), t = it <= NI ? truth[it] : 0;
+#endif
+    uint64_t t = 0; for (uint64_t j = 1; j <= NI; j++) if (j == it) t = truth[j];
+    uint64_t lb = w_fi_lower(a, it), ub = w_fi_upper(a, it), est = w_fi_estimate(a, it);
     ASSERT(lb <= t && t <= ub, "lower bound <= true total weight <= upper bound, for tracked and untracked items");
     ASSERT(lb <= est && est <= ub, "estimate between the bounds");
     ASSERT(ub - lb == me, "upper - lower == reported maximum error");
